@@ -308,6 +308,16 @@ func Garbage(genuine []byte, class string) []byte {
 		}
 		class = "prefix" // no short NAS-PDU in this message: fall back to a strict prefix
 	}
+	if class == "frag0" {
+		// an otherwise well-formed reply in which a top-level string IE (NAS-PDU, or the AMF name of an
+		// NG Setup response) is given the length determinant C0: a fragment of 0 x 16K items, which
+		// X.691 10.9.3.8 does not allow (the multiplier is 1..4); the string's content is dropped and
+		// the enclosing lengths are made consistent, so that nothing else is wrong with the message
+		if out := frag0(genuine); out != nil {
+			return out
+		}
+		class = "prefix"
+	}
 	switch class {
 	case "empty-value":
 		// the message header followed by an open type of length 0: a SEQUENCE cannot be empty
@@ -335,6 +345,82 @@ func Garbage(genuine []byte, class string) []byte {
 		return []byte{genuine[0], genuine[1], genuine[2], 0x7f, 0x00}
 	}
 	return []byte{0xff}
+}
+
+// perLen reads an X.691 length determinant (short or two-octet form) at b[i:]; n is its width.
+func perLen(b []byte, i int) (l, n int) {
+	if i >= len(b) {
+		return -1, 0
+	}
+	if b[i] < 0x80 {
+		return int(b[i]), 1
+	}
+	if b[i]&0xc0 == 0x80 && i+1 < len(b) {
+		return int(b[i]&0x3f)<<8 | int(b[i+1]), 2
+	}
+	return -1, 0
+}
+
+func putPerLen(l int) []byte {
+	if l < 0x80 {
+		return []byte{byte(l)}
+	}
+	return []byte{0x80 | byte(l>>8), byte(l)}
+}
+
+func frag0(g []byte) []byte {
+	if len(g) < 8 {
+		return nil
+	}
+	ol, on := perLen(g, 3)
+	if ol < 0 || 3+on+ol != len(g) {
+		return nil
+	}
+	v := g[3+on:]
+	if len(v) < 3 {
+		return nil
+	}
+	cnt := int(v[1])<<8 | int(v[2])
+	var ies [][]byte // each: id(2) crit(1) value
+	at := 3
+	for i := 0; i < cnt; i++ {
+		if at+4 > len(v) {
+			return nil
+		}
+		l, n := perLen(v, at+3)
+		if l < 0 || at+3+n+l > len(v) {
+			return nil
+		}
+		ies = append(ies, append(append([]byte{}, v[at:at+3]...), v[at+3+n:at+3+n+l]...))
+		at += 3 + n + l
+	}
+	if at != len(v) {
+		return nil
+	}
+	hit := false
+	for i, ie := range ies {
+		id := int(ie[0])<<8 | int(ie[1])
+		switch {
+		case id == 38 && !hit: // NAS-PDU ::= OCTET STRING
+			ies[i] = append(ie[:3:3], 0xc0)
+			hit = true
+		case id == 1 && g[1] == 21 && !hit: // AMFName ::= PrintableString (SIZE(1..150, ...)): extension bit, then the general length
+			ies[i] = append(ie[:3:3], 0x80, 0xc0)
+			hit = true
+		}
+	}
+	if !hit {
+		return nil
+	}
+	nv := append([]byte{}, v[:3]...)
+	for _, ie := range ies {
+		nv = append(nv, ie[:3]...)
+		nv = append(nv, putPerLen(len(ie)-3)...)
+		nv = append(nv, ie[3:]...)
+	}
+	out := append([]byte{}, g[:3]...)
+	out = append(out, putPerLen(len(nv))...)
+	return append(out, nv...)
 }
 
 // Read is SCTPConn.Read.
